@@ -372,7 +372,7 @@ impl Prop for C10 {
          (b) a corpus of 32 documents installed as either file, before the context is created and again under a running context followed by update_engine: wrong shapes, empty file, BOM, invalid UTF-8, NUL bytes, deep nesting, trailing garbage, duplicate keys, empty-string keys and values, a 5 MB object; \
          (c) directory states: user directory missing, user directory is a regular file, store path is a directory, auto-correct path is a directory, dangling symlinks; failed saves: file-size limit 0 / 10 / 40 bytes (RLIMIT_FSIZE), user directory removed or replaced by a file, the save's temporary path linked to /dev/full (ENOSPC); (e) three file states (valid, damaged, directory missing) once with the user directory named by XDG_DATA_HOME and once by the HOME/.local/share fallback: same probe renderings required; (f) the user auto-correct file replaced under a running context with time stamps an hour earlier, equal, the epoch, ten years ahead, earlier again, by rename, removed, re-created with an old stamp - update_engine and typing must keep working; (g) a left-over temporary store file (short junk, 5 kB junk, a valid older store) before two learning commits: a new context must pre-select the first choice; \
          (d, thorough) three processes committing into / constructing over one directory. Each fault is followed by a fixed battery: construct, 16 probe typings (words of the files and their suffix forms), 4 learning commits, re-typing, \
-         update_engine x3, restart, suggestions-off and fixed-layout contexts. Unreadable content must give the probe renderings of an absent file; after a failed save the earlier entries must still be pre-selected by a new context. \
+         update_engine x3, restart, suggestions-off and fixed-layout contexts. Unreadable content must give the probe renderings of an absent file; after a failed save (of a new word, or of a *changed* choice for a stored word) and a later successful save of another word, the earlier entries must still be pre-selected by a new context; (e) the same file states with the user directory named by XDG_DATA_HOME, by HOME alone, and by XDG_DATA_HOME while HOME is absent from the environment. \
          distinct_nontrivial = distinct faults after which the battery was run."
             .into()
     }
